@@ -95,9 +95,9 @@ void step(State &S) {
   case Instruction::GetElementPtr: {
     {
       const Val &b0 = getop(S, F, D.ops[0]); bool conc = !b0.e;
-      u64 acc = b0.c + D.gepconst; bool und = b0.undef;
-      for (auto &t : D.gepterms) { const Val &iv = getop(S, F, D.ops[t.first]); if (iv.e) { conc = false; break; } acc += (u64)sextw(iv.c, iv.w) * t.second; und |= iv.undef; }
-      if (conc) { Val r; r.c = acc; r.w = 64; r.undef = und; setreg(S, F, D.dst, r); break; }
+      u64 acc = b0.c + D.gepconst; bool und = b0.undef != 0;
+      for (auto &t : D.gepterms) { const Val &iv = getop(S, F, D.ops[t.first]); if (iv.e) { conc = false; break; } acc += (u64)sextw(iv.c, iv.w) * t.second; und |= iv.undef != 0; }
+      if (conc) { Val r; r.c = acc; r.w = 64; r.undef = umask(und, 64); setreg(S, F, D.dst, r); break; }
     }
     Val r = getop(S, F, D.ops[0]);
     if (D.gepconst) r = binop(S, Instruction::Add, r, mk(D.gepconst, 64), 64, nullptr);
@@ -124,14 +124,14 @@ void step(State &S) {
       case CmpInst::ICMP_SGT: r = sextw(x, a.w) > sextw(y, a.w); break; case CmpInst::ICMP_SGE: r = sextw(x, a.w) >= sextw(y, a.w); break;
       case CmpInst::ICMP_SLT: r = sextw(x, a.w) < sextw(y, a.w); break; default: r = sextw(x, a.w) <= sextw(y, a.w); break;
       }
-      Val rv; rv.c = r; rv.w = 1; rv.undef = a.undef || b.undef; setreg(S, F, D.dst, rv); break;
+      Val rv; rv.c = r; rv.w = 1; rv.undef = (a.undef || b.undef) ? 1 : 0; setreg(S, F, D.dst, rv); break;
     }
     setreg(S, F, D.dst, icmp(D.pred, a, b)); break; }
   case Instruction::Select: {
     Val c = getop(S, F, D.ops[0]), a = getop(S, F, D.ops[1]), b = getop(S, F, D.ops[2]);
     check_undef(c, "condition of a select");
     if (!c.sym()) setreg(S, F, D.dst, (c.c & 1) ? a : b);
-    else { Val r = mks(z3::ite(ex(c) == Z.bv_val(1, 1), ex(a), ex(b)), a.w); r.undef = a.undef || b.undef; setreg(S, F, D.dst, r); }
+    else { Val r = mks(z3::ite(ex(c) == Z.bv_val(1, 1), ex(a), ex(b)), a.w); r.undef = a.undef | b.undef; setreg(S, F, D.dst, r); }
     break; }
   case Instruction::Br: {
     if (D.edges.size() == 1) { jump(S, F, D.edges[0]); return; }
@@ -201,14 +201,14 @@ void step(State &S) {
     if (D.I->isBinaryOp()) {
       {
         const Val &a = getop(S, F, D.ops[0]); const Val &b = getop(S, F, D.ops[1]);
-        if (!a.e && !b.e && !D.nsw) {
+        if (!a.e && !b.e && !D.nsw && !a.undef && !b.undef) {
           u64 x = a.c, y = b.c, r = 0; bool ok = true;
           switch (D.op) {
           case Instruction::Add: r = x + y; break; case Instruction::Sub: r = x - y; break; case Instruction::Mul: r = x * y; break;
           case Instruction::And: r = x & y; break; case Instruction::Or: r = x | y; break; case Instruction::Xor: r = x ^ y; break;
           default: ok = false;
           }
-          if (ok) { Val rv; rv.c = r & maskw(D.w); rv.w = D.w; rv.undef = a.undef || b.undef; setreg(S, F, D.dst, rv); break; }
+          if (ok) { Val rv; rv.c = r & maskw(D.w); rv.w = D.w; setreg(S, F, D.dst, rv); break; }
         }
       }
       Val a = getop(S, F, D.ops[0]), b = getop(S, F, D.ops[1]);
